@@ -14,7 +14,7 @@ def run(ctx):
                   "unmarked": f"leader x 0..1 blanks x every body of length 1..{nb} over the alphabet {alpha!r}"}
     ctx.assumptions += ["S-lex: which tokens Pygments classifies as comments is not part of this check", "string parts are drawn from concrete pools by symbolic index (str.lower/strip on symbolic strings are not decidable with CrossHair): the verdict is for every combination of the pools, not for every string"]
     ctx.outside += ["comment texts outside the pools (e.g. non-ASCII letters whose lower-case form is ASCII)", "';' leader (no supported language uses it)"]
-    T = 200 if ctx.quick() else 900
+    T = 200 if ctx.quick() else 600
     jobs = []
     for li in range(3):
         jobs.append(Job("c17.py", "h_marked", {"leader": li}, T, 30, tag=f"leader={li}"))
